@@ -152,6 +152,8 @@ def runCx (c : Case) : Res :=
         stats := "cx.flip.modelled" :: stats
         if !flipGuard K.D pre R I then
           bad := s!"flip reported Ok but the move (R={R}, I={I}) is not a legal bistellar move on the previous cell set (model guard false)" :: bad
+        else if !insertedFaceNew pre R I then
+          bad := s!"flip reported Ok although the inserted face I={I} already existed in a cell outside the removed star (R={R}): afterwards its star is not the set of created cells (non-manifold link)" :: bad
         else
           let want := flipCells pre R I
           if !(want.all post.contains && post.all want.contains && want.length == post.length) then
